@@ -560,20 +560,30 @@ func (t *transpiler) evaluateGroup(group parser.Group, valueUsed bool) (expressi
 
 func (t *transpiler) evaluateBlock(block parser.Block) error {
 	body := block.Body()
-	length := len(body)
+	emitsCode := false
 
-	if length == 0 {
-		return t.converter.Nop()
-	}
-	for index, statement := range body {
+	for _, statement := range body {
 		err := t.evaluate(statement)
 
 		if err != nil {
 			return err
 		}
-		if index == length-1 {
-			return nil
+
+		// An expression whose value is not used (e.g. a lone variable or literal) might
+		// not emit any code. Only calls are guaranteed to do so.
+		switch statement.StatementType() {
+		case parser.STATEMENT_TYPE_FUNCTION_CALL, parser.STATEMENT_TYPE_APP_CALL:
+			emitsCode = true
+		default:
+			if _, isExpression := statement.(parser.Expression); !isExpression {
+				emitsCode = true
+			}
 		}
+	}
+
+	// A block which emits no code is not valid in the target languages.
+	if !emitsCode {
+		return t.converter.Nop()
 	}
 	return nil
 }
